@@ -61,9 +61,17 @@ TRUST = r"""
 * Coq 8.16.1 kernel and its VM (`vm_compute` is used in `Example`s, in the finite sweeps lifted by
   `forallb_forall`-style lemmas, and in `_refuted` witnesses).  `native_compute` is not used.
 * Axioms: none.  Every property theorem of every `coq/Props/C*.v` prints
-  "Closed under the global context"; the check fails if any `Print Assumptions` lists anything.
-  No `Program`, Equations, classical, functional-extensionality or real-number library is imported;
-  floats are not modelled (C15 quantifies over the detector's verdicts, C02 over the RTO).
+  "Closed under the global context", with one exception: `C02_rto_bounded` is about
+  `Model/Rto.v`, which uses Coq's primitive 64-bit floats (`PrimFloat.float`, `add`, `sub`, `mul`,
+  `div`, `abs`, `ltb`).  `Print Assumptions` lists these kernel primitives under "Axioms:"; they
+  are not axioms (they have reduction rules in the kernel) and nothing from `FloatAxioms` is used -
+  the theorem is proved by case analysis on the primitive comparisons.  The trusted base therefore
+  includes the kernel's float implementation (OCaml/C binary64 arithmetic, round to nearest even)
+  and its evaluation by `vm_compute`, which is also what runs the bit-for-bit comparison with
+  `_update_rto`.  The check fails if a `Print Assumptions` lists anything else.
+  No `Program`, Equations, classical, functional-extensionality or real-number library is imported.
+  C15's floating-point delay filter is not modelled (it calls libm's `pow`; C15 quantifies over the
+  detector's verdicts).
 * Standard library only (`ZArith List Bool Lia ZifyBool Arith Sorted FinFun` and friends).
 * The translators `harness/translate.py` and `harness/translate_tables.py` (Python `ast` ->
   Gallina text; fail closed on any unexpected shape).  The generated arithmetic is additionally
